@@ -188,6 +188,14 @@ def JMembers.erase : JMembers → List (JStr × JVal)
   | .more _ k _ _ v _ rest => (k, v.erase) :: rest.erase
 end
 
+/-- What may stand right after the text of a value for the value to end there: nothing is required except after a
+    number token, which (having no closing delimiter) ends only before a character that cannot continue it.  In a
+    JSON text a value is followed by whitespace, `,`, `]`, `}` or the end, all of which qualify.  (NUL is listed
+    because json.c's `strchr(numchars, c)` also succeeds for `c = 0`.) -/
+def followOK : JDoc → Bytes → Prop
+  | .num _, t => ∀ c, t.head? = some c → isNumTokCh c = false ∧ c ≠ 0
+  | _, _ => True
+
 /-- offset, inside `ms.ser`, of the first byte of the value of member number `m` -/
 def JMembers.valuePos : JMembers → Nat → Option Nat
   | .one wb k wk wv _ _, 0 => some (wb.length + k.ser.length + wk.length + 1 + wv.length)
